@@ -530,6 +530,17 @@ class ProgGen:
         for m in macro_plans:
             ir.append(self.fill_macro(m))
         ir += self.fill(skel, self.root, 0)
+        if self.p.includes:
+            # move runs of complete top-level statements into .include files (nested once)
+            for level in range(2):
+                if len(ir) > 3 and rng.random() < 0.7:
+                    i = rng.randint(1, len(ir) - 2)
+                    j = min(len(ir), i + rng.randint(1, 4))
+                    name = f"part{level + 1}.s"
+                    run = ir[i:j]
+                    if level == 1 and run and run[0]["k"] == "include":
+                        continue
+                    ir[i:j] = [{"k": "include", "f": name, "b": run}]
         return {"rom": self.rom, "ir": ir, "files": self.files}
 
 
